@@ -241,7 +241,12 @@ func execC13(r *kernel.Run, s C12Spec) {
 		nc.Pk = rw.key.Pk
 		rw.hc.Cred = nc
 	}
-	pl, err := rw.prove()
+	var pl gabi.ProofList
+	var err error
+	if p, fr := guardFrame(func() { pl, err = rw.prove() }); p != "" {
+		r.Violate("C13:prover-panics:"+fr, det, "proving true statements %+v panics: %s", s.Stmts, p)
+		return
+	}
 	r.Logf("key=%s stmts=%d err=%v", s.Key, len(s.Stmts), err != nil)
 	for _, st := range s.Stmts {
 		r.Distinct(fmt.Sprintf("sign=%d factor=%d three=%v delta=%s bits=%d", st.Sign, st.Factor, st.Three, deltaClass(st.Delta), rw.key.Bits))
@@ -492,6 +497,73 @@ func execC12(r *kernel.Run, s C12Spec) {
 		}
 		break
 	}
+	// Byzantine holder, in memory: a range proof computed for a value of the holder's choosing (with
+	// its own m response) attached to an honest disclosure proof, with the challenge computed over both
+	for _, st := range s.Stmts {
+		id := fmt.Sprintf("byzantine:free-standing-range-proof:attr%d", st.Attr)
+		if !wanted(s.OnlyFault, id) {
+			continue
+		}
+		fake := new(big.Int).Add(rw.ms[st.Attr], big.NewInt(1000000))
+		bound := new(big.Int).Add(rw.ms[st.Attr], big.NewInt(500000)) // false for the signed value, true for the fake one
+		structure, err := rangeproof.NewProofStructure(st.Attr, 1, 1, bound, nil)
+		if err != nil {
+			continue
+		}
+		inner, err := rw.hc.Cred.CreateDisclosureProofBuilder(rw.disclosed, nil, false)
+		if err != nil {
+			continue
+		}
+		fb := &freeRangeBuilder{inner: inner, pk: rw.key.Pk, structure: structure, index: st.Attr, fake: fake, rnd: randBits(hrand(s.ValSeed, 12), 500)}
+		var pl gabi.ProofList
+		if p := guard(func() { pl, err = gabi.ProofBuilderList{fb}.BuildProofList(rw.sess.Context, rw.sess.Nonce, rw.sess.IsSig) }); p != "" || err != nil {
+			r.Probe("byzantine-free-standing-not-buildable")
+			continue
+		}
+		r.Eval(1)
+		r.Fault("byzantine-free-standing-range-proof")
+		v := verifyObj(pl, rw.sess)
+		if v.Accepted {
+			r.Probe("mutant-accepted")
+			if pd, ok := pl[0].(*gabi.ProofD); ok {
+				checkRangeSemantics(r, id, pd, rw.ms)
+			}
+		}
+		break
+	}
+	// Byzantine holder, in memory: a range proof whose commitments C_i are 0 (or multiples of n): every
+	// power of them is 0, so every relation they appear in is trivially "satisfied"
+	for di, deg := range []*big.Int{big.NewInt(0), new(big.Int).Set(rw.key.Pk.N)} {
+		st := s.Stmts[0]
+		id := fmt.Sprintf("byzantine:degenerate-range-commitments:%d", di)
+		if !wanted(s.OnlyFault, id) {
+			continue
+		}
+		bound := new(big.Int).Add(rw.ms[st.Attr], big.NewInt(500000)) // "m >= m+500000": false
+		inner, err := rw.hc.Cred.CreateDisclosureProofBuilder(rw.disclosed, nil, false)
+		if err != nil {
+			continue
+		}
+		zb := &zeroRangeBuilder{inner: inner, pk: rw.key.Pk, index: st.Attr, bound: bound, deg: deg}
+		var pl gabi.ProofList
+		if p := guard(func() { pl, err = gabi.ProofBuilderList{zb}.BuildProofList(rw.sess.Context, rw.sess.Nonce, rw.sess.IsSig) }); p != "" || err != nil {
+			r.Probe("byzantine-degenerate-not-buildable")
+			continue
+		}
+		r.Eval(1)
+		r.Fault("byzantine-degenerate-range-commitments")
+		wb, merr := json.Marshal(pl)
+		if merr != nil {
+			continue
+		}
+		v := verifyWire(wb, rw.sess)
+		if v.Accepted {
+			r.Probe("mutant-accepted")
+			if pd, ok := v.List[0].(*gabi.ProofD); ok {
+				checkRangeSemantics(r, id, pd, rw.ms)
+			}
+		}
+	}
 	// range proofs of another credential (other values, same statements where provable) moved into this proof
 	other := buildOtherRangeProof(r, rw, s)
 	if other != nil {
@@ -579,3 +651,70 @@ func threeSquares(n int64) []*big.Int {
 	}
 	return nil
 }
+
+// freeRangeBuilder is a Byzantine holder's builder: an honest disclosure builder plus a range proof
+// about a value of its own choosing, hashed into the same challenge.
+type freeRangeBuilder struct {
+	inner     *gabi.DisclosureProofBuilder
+	pk        *gabikeys.PublicKey
+	structure *rangeproof.ProofStructure
+	commit    *rangeproof.ProofCommit
+	index     int
+	fake, rnd *big.Int
+}
+
+func (f *freeRangeBuilder) Commit(rz map[string]*big.Int) ([]*big.Int, error) {
+	list, err := f.inner.Commit(rz)
+	if err != nil {
+		return nil, err
+	}
+	contrib, commit, err := f.structure.CommitmentsFromSecrets(f.pk, f.fake, f.rnd)
+	if err != nil {
+		return nil, err
+	}
+	f.commit = commit
+	return append(list, contrib...), nil
+}
+
+func (f *freeRangeBuilder) CreateProof(c *big.Int) gabi.Proof {
+	pd := f.inner.CreateProof(c).(*gabi.ProofD)
+	pd.RangeProofs = map[int][]*rangeproof.Proof{f.index: {f.structure.BuildProof(f.commit, c)}}
+	return pd
+}
+func (f *freeRangeBuilder) PublicKey() *gabikeys.PublicKey              { return f.pk }
+func (f *freeRangeBuilder) SetProofPCommitment(*gabi.ProofPCommitment) {}
+
+// zeroRangeBuilder attaches a four-square range proof for a false statement whose commitments are
+// all degenerate (0 modulo n); the contributions it hashes are the zeros a verifier will reconstruct.
+type zeroRangeBuilder struct {
+	inner *gabi.DisclosureProofBuilder
+	pk    *gabikeys.PublicKey
+	index int
+	bound *big.Int
+	deg   *big.Int
+}
+
+func (z *zeroRangeBuilder) Commit(rz map[string]*big.Int) ([]*big.Int, error) {
+	list, err := z.inner.Commit(rz)
+	if err != nil {
+		return nil, err
+	}
+	for i := 0; i < 5; i++ { // mCorrect + 4 commitments representations
+		list = append(list, big.NewInt(0))
+	}
+	return list, nil
+}
+
+func (z *zeroRangeBuilder) CreateProof(c *big.Int) gabi.Proof {
+	pd := z.inner.CreateProof(c).(*gabi.ProofD)
+	rp := &rangeproof.Proof{V5Response: big.NewInt(1), Ld: 128, Sign: 1, A: 1, K: z.bound}
+	for i := 0; i < 4; i++ {
+		rp.Cs = append(rp.Cs, new(big.Int).Set(z.deg))
+		rp.DResponses = append(rp.DResponses, big.NewInt(1))
+		rp.VResponses = append(rp.VResponses, big.NewInt(1))
+	}
+	pd.RangeProofs = map[int][]*rangeproof.Proof{z.index: {rp}}
+	return pd
+}
+func (z *zeroRangeBuilder) PublicKey() *gabikeys.PublicKey              { return z.pk }
+func (z *zeroRangeBuilder) SetProofPCommitment(*gabi.ProofPCommitment) {}
